@@ -465,6 +465,11 @@ func gen(r *vlib.R, n int, tier string, emit func(string)) {
 				emit(fmt.Sprintf("srv raw %s %s %s", vlib.Pick(r, []string{"sockudp", "socktcp"}), vlib.Hex(genMalformed(r)), plainR))
 				continue
 			}
+			if r.Chance(1, 25) {
+				// the same malformed stream at the entries that have no header gate of their own
+				emit(fmt.Sprintf("srv raw %s %s %s", vlib.Pick(r, []string{"http", "msgdoh", "msgdoq", "rawudp", "rawtcp", "inline"}), vlib.Hex(genMalformed(r)), plainR))
+				continue
+			}
 			q := genQ(r)
 			if len(pool) > 0 && r.Chance(1, 3) {
 				// ask an earlier question again (cache hit), possibly as a different kind of client
